@@ -82,9 +82,9 @@ def _eval_clauses(model, zclauses):
     return out
 
 
-def _region_formula(expr, v, var):
+def _region_formula(expr, v, var, h=None):
     from . import logic as L
-    return eval(expr, {"L": L, "v": v, "var": var})
+    return eval(expr, {"L": L, "v": v, "var": var, "H": h})
 
 
 def _task(args):
@@ -108,10 +108,10 @@ def _task(args):
         v = _mk_vars(h, var)
         pre = core._zb(h.pre(var, v))
         eng.pre = pre
-        kf = [k for k in _W["kf"] if k["harness"] == hid and all(var.get(a) == b for a, b in k.get("variant", {}).items())]
+        kf = [k for k in _W["kf"] if k["harness"] == hid and all(var.get(a) == b for a, b in k.get("applies_to", {}).items())]
         kf_regions = {}
         for k in kf:
-            kf_regions.setdefault(k["clause"], []).append(core._zb(_region_formula(k["region"], v, var)))
+            kf_regions.setdefault(k["clause"], []).append(core._zb(_region_formula(k["region"], v, var, h)))
         eng.work = [list(map(tuple, prefix))]
         eng.deferred_pcs = [None]
         leaf_pcs = []
@@ -394,7 +394,7 @@ def run_property(pid, tier, only=None, jobs=None, seed=0, verbose=True):
         try:
             o = concrete_batch(pid, tier if "tier" not in k else k["tier"],
                                [{"hid": k["harness"], "vidx": k.get("vidx", 0), "values": k["witness"],
-                                 "variant": k.get("variant")}])[0]
+                                 "variant": k.get("witness_variant")}])[0]
         except Exception as exc:
             inconclusive.append("known finding %s: witness replay failed: %s" % (k["id"], exc))
             continue
